@@ -138,6 +138,15 @@ func AlphaEdge(n int) []uint64 {
 	return uniq([]uint64{0, 1, 2, 3, m - 1, m, uint64(1) << uint(n-1), uint64(1)<<uint(n-1) - 1}, n)
 }
 
+// AlphaQuarter: the edge alphabet plus the quarter points 2^(n-2) and 3*2^(n-2).
+func AlphaQuarter(n int) []uint64 {
+	if n < 3 {
+		return AlphaEdge(n)
+	}
+	q := uint64(1) << uint(n-2)
+	return uniq(append(append([]uint64{}, AlphaEdge(n)...), q, 3*q), n)
+}
+
 // AlphaGrid: the edge alphabet plus a g-point grid (enough to hit every small bit length of a biased draw).
 func AlphaGrid(g int) func(n int) []uint64 {
 	return func(n int) []uint64 {
